@@ -832,7 +832,7 @@ func genC11(r *rand.Rand, t *Trace, thorough bool) {
 	opsPer := 40
 	nContend := 2500 * time.Millisecond
 	if thorough {
-		rounds, opsPer, nContend = 8, 200, 6*time.Second
+		rounds, opsPer, nContend = 5, 200, 6*time.Second
 	}
 	work := os.Getenv("VERIF_WORK")
 	if work == "" {
@@ -856,12 +856,29 @@ func genC11(r *rand.Rand, t *Trace, thorough bool) {
 		storeCaseCounter++
 		d1 := filepath.Join(work, "stores", fmt.Sprintf("x%d_%d", os.Getpid(), storeCaseCounter))
 		os.RemoveAll(d1)
-		stress(mkStoreTarget(d1, false), 8, r, gs[r.Intn(len(gs))], opsPer, true, t)
+		// store histories are kept short (see below: every search fans out over every memtable and segment, and
+		// with a memtable limit of one document their number grows with the history); the thorough tier runs
+		// three short ones per round rather than one long one
+		reps, per := 1, opsPer
+		if per > 50 {
+			reps, per = 3, 50
+		}
+		for rep := 0; rep < reps; rep++ {
+			os.RemoveAll(d1)
+			stress(mkStoreTarget(d1, false), 8, r, gs[r.Intn(len(gs))], per, true, t)
+		}
 		os.RemoveAll(d1)
 		storeCaseCounter++
 		d2 := filepath.Join(work, "stores", fmt.Sprintf("x%d_%d", os.Getpid(), storeCaseCounter))
 		os.RemoveAll(d2)
-		stress(mkStoreTarget(d2, true), 9, r, gs[r.Intn(len(gs))], opsPer, false, t)
+		// the store's flush is unsynchronised: every concurrent Flush / background flush writes the SAME frozen
+		// memtables to segments of its own (harmless to results, which are merged by id, but the segment list
+		// grows several times faster than the documents, and each search fans out over all of it). Long
+		// histories are therefore quadratic; the thorough tier runs more short ones instead of one long one.
+		for rep := 0; rep < reps; rep++ {
+			os.RemoveAll(d2)
+			stress(mkStoreTarget(d2, true), 9, r, gs[r.Intn(len(gs))], per, false, t)
+		}
 		os.RemoveAll(d2)
 		for _, n := range []int{1, 1, 3} {
 			updatePhase(5, n, nContend/5, t)
